@@ -125,8 +125,21 @@ def cases(draw, tier):
         pick += ["u%d" % i for i in range(n - len(pick))]
         spec[key] = sorted(pick, reverse=draw(st.booleans()))
         spec["history"] = []
-    return {"table": spec, "op": op,
-            "positional": draw(st.sampled_from([False, False, True]))}
+    positional = draw(st.sampled_from([False, False, True]))
+    if draw(st.integers(0, 11)) == 0 and "rows" in spec:
+        # two axes whose IDs, written one after the other, give the same
+        # text: ['p','q','r','s'] and ['pq','rs'] (fixed-width ID arrays of
+        # different width over the same characters are different IDs)
+        n, m = len(spec["obs"]), len(spec["samp"])
+        big_, small_ = (n, m) if n >= m else (m, n)
+        if small_ >= 1 and big_ > small_ and big_ % small_ == 0 and \
+                big_ <= 26:
+            w = big_ // small_
+            text = "pqrstuvwxyzabcdefghijklmno"[:big_]
+            chunks = [text[i * w:(i + 1) * w] for i in range(small_)]
+            spec["obs"], spec["samp"] = (list(text), chunks) if n >= m \
+                else (chunks, list(text))
+    return {"table": spec, "op": op, "positional": positional}
 
 
 def strategy(tier):
